@@ -120,6 +120,14 @@ impl Scratch {
         fs::create_dir_all(&path).unwrap();
         Scratch { path, keep: false }
     }
+    /// Like [`Scratch::fixed`] but under an explicit root (for work that must live
+    /// outside any git work tree: veryl's `Git::init` adopts an enclosing repository).
+    pub fn fixed_in(root: &str, key: u64) -> Scratch {
+        let path = PathBuf::from(root).join(format!("{key:016x}"));
+        let _ = fs::remove_dir_all(&path);
+        fs::create_dir_all(&path).unwrap();
+        Scratch { path, keep: false }
+    }
     pub fn keep(&mut self) {
         self.keep = true;
     }
